@@ -224,6 +224,10 @@ def replay(f):
         if disabled:
             tr.disable_features(list(disabled))
             rpk = [k for k in rpk if k not in disabled]
+        cyc = inp.get("cycle")
+        if cyc:
+            tr.enable_features([cyc])
+            tr.disable_features([cyc])
         raw_n0 = {n: dict(d) for n, d in tr.graph.nodes(data=True)}
         raw_e0 = {(u, v): dict(d) for u, v, d in tr.graph.edges(data=True)}
         S0 = snapshot(tr)
@@ -282,6 +286,13 @@ def replay(f):
         r = state_checks("")
         if r is not None:
             return r[0], detail + " " + r[1]
+        if cyc and ob.startswith("C10."):
+            tr.enable_features([cyc])
+            if ob == "C10.reenabled_key_registered":
+                return not (cyc in tr.features and cyc in tr.annotators.features), detail
+            if ob == "C10.values_after_reenable_equal_reference":
+                ok, why = iou_ok(tr) if cyc == "iou" else rp_ok(tr, rpk + [cyc])
+                return (not ok), detail + f" after enable, disable, edit, enable of {cyc}: " + why
         if ob == "C07.array_as_painted":
             return (not np.array_equal(info["painted"], S1["seg"])), detail
         if ob == "C07.get_pixels_exact":
